@@ -140,6 +140,9 @@ def gen_ptf(rng):
           ' [kg/min]',
           '    |          lo   nom    hi   |         lo    nom    hi    nom    |        nom'
           '    nom', bar]
+    # the top one or two levels may lie above the climb ceiling: their CLIMB cell is blank
+    n_blank_climb = rng.choice([0, 0, 1, 2]) if n >= 7 else 0
+    spec['blank_climb_levels'] = n_blank_climb
     for i, fl in enumerate(fls):
         r = {}
         if i >= first_cruise:
@@ -155,6 +158,9 @@ def gen_ptf(rng):
                         round(rng.uniform(1, 60), 2))
         cl = f'  {r["climb"][0]:3d}   {r["climb"][1]:5d} {r["climb"][2]:5d} {r["climb"][3]:5d}' \
              f'  {r["climb"][4]:6.2f}'
+        if i >= n - n_blank_climb:
+            cl = ''
+            del r['climb']
         de = f'  {r["descent"][0]:3d}  {r["descent"][1]:5d}  {r["descent"][2]:6.2f}'
         L.append(f'{fl:3d} | {cr:<25s} | {cl:<33s} | {de}')
         L.append('    |                           |                                   |')
